@@ -47,6 +47,10 @@ pub struct Case {
     /// the target's command lies in the command directory
     #[serde(default)]
     pub explicit_defs: bool,
+    /// how the commands are asked for: 0 all with -c; 1 a prefix through a sequence (-s) and the
+    /// rest with -c; 2 like 1, and the first command once more with -c (it is then planned twice)
+    #[serde(default)]
+    pub via_sequence: u8,
 }
 
 pub fn strategy() -> impl Strategy<Value = Case> {
@@ -129,6 +133,17 @@ pub fn strategy() -> impl Strategy<Value = Case> {
                 }
             }
             let explicit_defs = raw.perm.get(1).copied().unwrap_or(0) % 2 == 0;
+            let via_sequence = match raw.perm.get(2).copied().unwrap_or(0) % 4 {
+                0 | 1 => 0,
+                2 => 1,
+                _ => {
+                    if failing.is_none() {
+                        2
+                    } else {
+                        1
+                    }
+                }
+            };
             Case {
                 config,
                 state,
@@ -137,6 +152,7 @@ pub fn strategy() -> impl Strategy<Value = Case> {
                 undefined,
                 failing,
                 explicit_defs,
+                via_sequence,
             }
         })
 }
@@ -196,6 +212,7 @@ pub fn strategy_wide(max_width: usize) -> impl Strategy<Value = Case> {
                 undefined,
                 failing: None,
                 explicit_defs: false,
+                via_sequence: 0,
             }
         })
 }
@@ -235,6 +252,28 @@ pub fn check(case: &Case, w: usize) -> CheckResult {
                 }
             }
         }
+    }
+    // the commands as planned: sequences first, then -c, each in the order given
+    let mut planned: Vec<String> = case.commands.clone();
+    let mut run_args: Vec<String> = vec!["run".into()];
+    if case.via_sequence > 0 {
+        let k = 1 + case.commands.len() / 2;
+        let k = k.min(case.commands.len());
+        cfg_owned.sequences.insert("seq-first".into(), case.commands[..k].to_vec());
+        run_args.push("-s".into());
+        run_args.push("seq-first".into());
+        let mut rest: Vec<String> = case.commands[k..].to_vec();
+        if case.via_sequence == 2 {
+            rest.push(case.commands[0].clone());
+            planned.push(case.commands[0].clone());
+        }
+        if !rest.is_empty() {
+            run_args.push("-c".into());
+            run_args.extend(rest);
+        }
+    } else {
+        run_args.push("-c".into());
+        run_args.extend(case.commands.iter().cloned());
     }
     env.install_config(&cfg_owned);
     let decoy_root = env.path("decoy-started");
@@ -325,8 +364,7 @@ pub fn check(case: &Case, w: usize) -> CheckResult {
     let ap = c01::parse_analyze(&av).map_err(|e| Violation::new("c05.analyze.output", e))?;
     let analyze_groups = ap.groups.clone().unwrap_or_default();
 
-    let mut args: Vec<String> = vec!["run".into(), "-c".into()];
-    args.extend(case.commands.iter().cloned());
+    let mut args: Vec<String> = run_args.clone();
     let all_paths: BTreeSet<String> = cfg.target_paths().into_iter().collect();
     let idx = gen::index_of(cfg);
     let adj = model::dep_adj(cfg);
@@ -371,8 +409,8 @@ pub fn check(case: &Case, w: usize) -> CheckResult {
         return inconclusive(format!("run failed although nothing fails: {}", out.brief()));
     }
     let got_cmds: Vec<&String> = run.results.iter().map(|r| &r.0).collect();
-    if got_cmds != case.commands.iter().collect::<Vec<_>>() {
-        return viol("c05.commands", format!("result commands {:?} != requested {:?}", got_cmds, case.commands));
+    if got_cmds != planned.iter().collect::<Vec<_>>() {
+        return viol("c05.commands", format!("result commands {:?} != planned {:?} (arguments {:?})", got_cmds, planned, run_args));
     }
     // a same-stem file in the command directory is not the command of a target that maps the
     // command to another executable
@@ -442,7 +480,9 @@ pub fn check(case: &Case, w: usize) -> CheckResult {
             for (t, r) in g {
                 let defined = !case.undefined.contains(&(cmd.clone(), t.clone()));
                 let n = by_key.get(&(cmd.clone(), t.clone())).map(|v| v.len()).unwrap_or(0);
-                if defined && (n > 1 || (n != 1 && !failed_mode)) {
+                // (a command planned twice runs at each of its places)
+                let m = planned.iter().filter(|c| *c == cmd).count();
+                if defined && (n > m || (n != m && !failed_mode)) {
                     return viol("c05.started.count", format!("({}, {}) defines the command but was started {} times", cmd, t, n));
                 }
                 if !defined && n != 0 {
@@ -506,6 +546,8 @@ pub fn check(case: &Case, w: usize) -> CheckResult {
         .class_if(cfg.targets.iter().any(|t| t.commands_path.is_some()), "custom-commands-dir")
         .class_if(linked > 0, "symlinked-command-files")
         .class_if(!explicit.is_empty(), "explicit-definition+same-stem-decoy")
+        .class_if(case.via_sequence == 1, "sequence+commands")
+        .class_if(case.via_sequence == 2, "a-sequence-step-given-again-with--c")
         .class_if(failed_mode, "one-executable-fails")
         .class_if(cfg.out_dir.is_some(), "out-dir-name-is-a-string-prefix-of-a-target")
         .class_if(selected.len() > 16, "selection>16")
